@@ -1,8 +1,202 @@
-//! C04 correspondence streams (stub).
-use crate::util::Opts;
+//! C04 (and the block-stepped part of C09): generated structured multi-block guest programs advanced block by block
+//! through the real `Core::run_code_block` / `Core::update` of THIS build (recompiler when built with `--features jit`,
+//! interpreter otherwise); the runner joins the lines of the two builds.  After every step a digest of the observable
+//! machine state is recorded: registers, IME/run state, IF/IE, DIV/TIMA (clocks delivered), LY/STAT, OAM-DMA progress;
+//! periodically and at the end all RAM, the frame buffer and the serial output.
+//! c04 seed=<n> steps=<N> mode=<block|update> | s=<ip,af,sp,div,dg;...> ram=<digest;...> fb=<digest> ser=<hex> fin=<regs...>
+use crate::emulator::{Core, RunState};
+use crate::mem::{memory_read_byte, MemoryAreas};
+use crate::roms::*;
+use crate::s_c18::Capture;
+use crate::util::{hex, Opts, Rng};
 use std::io::Write;
 
-pub fn run(sub: &str, _opts: &Opts, _w: &mut dyn Write) {
-  eprintln!("stream c04.{} not implemented", sub);
-  std::process::exit(2);
+struct Asm { rom: Vec<(usize, u8)>, pc: usize }
+
+impl Asm {
+  fn at(&mut self, pc: usize) { self.pc = pc; }
+  fn b(&mut self, bytes: &[u8]) { for x in bytes { self.rom.push((self.pc, *x)); self.pc += 1; } }
+}
+
+/// data-only ALU / load instructions that are safe anywhere (no memory writes outside (HL) in WRAM, no control flow)
+fn safe_ops(a: &mut Asm, rng: &mut Rng, n: usize) {
+  for _ in 0..n {
+    match rng.below(14) {
+      0 => a.b(&[0x3e, rng.u8()]),              // LD A,n
+      1 => a.b(&[0x80 + rng.below(6) as u8]),   // ADD A,r
+      2 => a.b(&[0x88 + rng.below(6) as u8]),   // ADC A,r
+      3 => a.b(&[0x90 + rng.below(6) as u8]),   // SUB r
+      4 => a.b(&[0xa8 + rng.below(6) as u8]),   // XOR r
+      5 => a.b(&[0x04 + 8 * rng.below(4) as u8]),   // INC B/C/D/E
+      6 => a.b(&[0x27]),                        // DAA
+      7 => { let z = *rng.pick(&[0u8, 1, 2, 3, 6, 7]); a.b(&[0xcb, (rng.u8() & 0x38) | z]) },  // CB rot/shift on B C D E (HL) A (H and L stay put)
+      8 => a.b(&[0x77]),                        // LD (HL),A
+      9 => a.b(&[0x7e]),                        // LD A,(HL)
+      10 => a.b(&[0x2c]),                       // INC L
+      11 => a.b(&[0xc6, rng.u8()]),             // ADD A,n
+      12 => a.b(&[0x17]),                       // RLA
+      _ => a.b(&[0x00]),
+    }
+  }
+}
+
+/// builds the program image: (rom patches, number of banks used)
+fn build_program(seed: u64) -> Vec<(usize, u8)> {
+  let mut rng = Rng::new(seed ^ 0xc04);
+  let mut a = Asm { rom: Vec::new(), pc: 0 };
+  // everything not written explicitly is a NOP sled with periodic jumps back to the main loop
+  // (filled in by `load`), so stray paths stay defined.
+  // interrupt handlers: PUSH AF ; LDH A,(counter) ; INC A ; LDH (counter),A ; [VBlank: maybe OAM DMA via HRAM routine] ; POP AF ; RETI
+  for (k, v) in [0x40usize, 0x48, 0x50, 0x58, 0x60].iter().enumerate() {
+    a.at(*v);
+    a.b(&[0xf5, 0xf0, 0x90 + k as u8, 0x3c, 0xe0, 0x90 + k as u8, 0xf1, 0xd9]);
+  }
+  a.at(0x0000); a.b(&[0xc3, 0x50, 0x01]);
+  a.at(0x0008); a.b(&[0x0c, 0xc9]);                       // RST 08: INC C ; RET
+  a.at(0x0100); a.b(&[0x00, 0xc3, 0x50, 0x01]);
+  // subroutines in bank 0
+  for k in 0..8usize {
+    a.at(0x2000 + k * 0x40);
+    { let n = 2 + rng.below(6) as usize; safe_ops(&mut a, &mut rng, n); }
+    if rng.chance(1, 3) { a.b(&[0xc8 + 8 * rng.below(2) as u8 * 2]); } // RET Z / RET C (conditional), falls through to RET
+    safe_ops(&mut a, &mut rng, 1);
+    a.b(&[0xc9]);
+  }
+  // banked subroutines: different code at the same addresses in banks 1..7
+  for bank in 1..8usize { for k in 0..4usize {
+    a.at(bank * 0x4000 + k * 0x40);
+    a.b(&[0x3e, (bank * 16 + k) as u8]);
+    { let n = 1 + rng.below(5) as usize; safe_ops(&mut a, &mut rng, n); }
+    a.b(&[0xc9]);
+  }}
+  // HRAM DMA routine source (copied to 0xFF80 by the program): LD A,page ; LDH (46),A ; LD A,40 ; DEC A ; JR NZ,-3 ; RET
+  let dma_page = *rng.pick(&[0xc0u8, 0xc1, 0xd0, 0x80, 0x20, 0x41]);
+  a.at(0x3000); a.b(&[0x3e, dma_page, 0xe0, 0x46, 0x3e, 0x28, 0x3d, 0x20, 0xfd, 0xc9]);
+  // WRAM routine source (copied to 0xC100): a few ALU ops ; RET
+  a.at(0x3020); safe_ops(&mut a, &mut rng, 5); a.b(&[0xc9]);
+  let wram_len = a.pc - 0x3020;
+  // main program
+  a.at(0x0150);
+  a.b(&[0xf3, 0x31, 0xff, 0xdf, 0x21, 0x00, 0xc0]);          // DI ; LD SP,0xDFFF ; LD HL,0xC000
+  let ie = *rng.pick(&[0x00u8, 0x01, 0x04, 0x05, 0x07, 0x02, 0x03]);
+  let tac = *rng.pick(&[0x00u8, 0x05, 0x05, 0x06, 0x07, 0x04]);
+  let stat = *rng.pick(&[0x00u8, 0x08, 0x20, 0x40, 0x48, 0x10]);
+  a.b(&[0x3e, *rng.pick(&[0x00u8, 0xf0, 0xfe]), 0xe0, 0x06]);  // TMA
+  a.b(&[0x3e, tac, 0xe0, 0x07]);                              // TAC
+  a.b(&[0x3e, stat, 0xe0, 0x41]);                             // STAT enables
+  a.b(&[0x3e, *rng.pick(&[0u8, 1, 10, 144, 153]), 0xe0, 0x45]); // LYC
+  a.b(&[0x3e, 0x91, 0xe0, 0x40, 0x3e, 0xe4, 0xe0, 0x47]);     // LCDC, BGP
+  a.b(&[0x3e, ie, 0xe0, 0xff]);                               // IE
+  // copy the HRAM routine: LD HL,0x3000 ; LD C,0x80 ; LD B,10 ; loop: LD A,(HL+) ; LD (C),A ; INC C ; DEC B ; JR NZ,loop
+  a.b(&[0x21, 0x00, 0x30, 0x0e, 0x80, 0x06, 0x0a, 0x2a, 0xe2, 0x0c, 0x05, 0x20, 0xfa]);
+  // copy the WRAM routine: LD HL,0x3020 ; LD DE,0xC100 ; LD B,len ; loop: LD A,(HL+) ; LD (DE),A ; INC DE ; DEC B ; JR NZ,loop
+  a.b(&[0x21, 0x20, 0x30, 0x11, 0x00, 0xc1, 0x06, wram_len as u8, 0x2a, 0x12, 0x13, 0x05, 0x20, 0xfa]);
+  a.b(&[0x21, 0x00, 0xc0]);
+  if ie != 0 { a.b(&[0xfb]); }                               // EI
+  let main_loop = a.pc;
+  let nfrag = 6 + rng.below(10) as usize;
+  for _ in 0..nfrag {
+    match rng.below(10) {
+      0 | 1 => {                                             // counted loop
+        a.b(&[0x06, 1 + rng.below(20) as u8]);
+        let top = a.pc;
+        { let n = 1 + rng.below(6) as usize; safe_ops_nob(&mut a, &mut rng, n); }
+        a.b(&[0x05, 0x20]); let d = (top as isize - (a.pc as isize + 1)) as i8; a.b(&[d as u8]);
+      },
+      2 => { let k = rng.below(8) as usize; let t = 0x2000 + k * 0x40; a.b(&[0xcd, (t & 0xff) as u8, (t >> 8) as u8]); },
+      3 => { if ie != 0 && (tac & 4 != 0 || ie & 3 != 0) { a.b(&[0x76]); } else { a.b(&[0x00]); } },   // HALT only when something can wake it
+      4 => { a.b(&[0xcd, 0x80, 0xff]); },                     // OAM DMA through the HRAM routine
+      5 => { a.b(&[0xcd, 0x00, 0xc1]); },                     // code in work RAM
+      6 => {                                                  // bank switch from bank 0, then call banked code
+        let bank = 1 + rng.below(7) as u8; let k = rng.below(4) as usize; let t = 0x4000 + k * 0x40;
+        a.b(&[0x3e, bank, 0xea, 0x00, 0x21, 0xcd, (t & 0xff) as u8, (t >> 8) as u8]);
+      },
+      7 => { a.b(&[0x3e, rng.u8(), 0xe0, 0x01, 0x3e, 0x81, 0xe0, 0x02]); },   // serial byte
+      8 => { a.b(&[0xc5, 0xd5, 0xe1, 0xc1, 0x21, 0x00, 0xc0]); safe_ops(&mut a, &mut rng, 3); },   // PUSH/POP
+      _ => { { let n = 2 + rng.below(8) as usize; safe_ops(&mut a, &mut rng, n); } if rng.chance(1, 4) { a.b(&[0xcf]); } },
+    }
+  }
+  a.b(&[0xc3, (main_loop & 0xff) as u8, (main_loop >> 8) as u8]);
+  a.rom
+}
+
+/// like safe_ops but never touches B (the loop counter)
+fn safe_ops_nob(a: &mut Asm, rng: &mut Rng, n: usize) {
+  for _ in 0..n {
+    match rng.below(8) {
+      0 => a.b(&[0x3e, rng.u8()]),
+      1 => a.b(&[0x81 + rng.below(5) as u8]),
+      2 => a.b(&[0x0c]),
+      3 => a.b(&[0x77]),
+      4 => a.b(&[0x2c]),
+      5 => a.b(&[0xcb, 0x11 + rng.below(3) as u8]),
+      6 => a.b(&[0x1c]),
+      _ => a.b(&[0x00]),
+    }
+  }
+}
+
+pub fn load(seed: u64) -> Core {
+  let mut core = mk_core(0x03, 2, 3);   // MBC1+RAM, 8 banks, 32 KiB RAM
+  for i in 0..core.memory.rom.len() { core.memory.rom[i] = 0x00; }
+  let mut i = 0x20usize;
+  while i + 3 < core.memory.rom.len() { if (i & 0x3fff) < 0x3ff0 { core.memory.rom[i] = 0xc3; core.memory.rom[i + 1] = 0x50; core.memory.rom[i + 2] = 0x01; } i += 0x20; }
+  for (at, b) in build_program(seed) { if at < core.memory.rom.len() { core.memory.rom[at] = b; } }
+  core.registers.ip = 0x0100;
+  core
+}
+
+fn ram_digest(core: &mut Core) -> u64 {
+  let p = &mut core.memory as *mut MemoryAreas;
+  let mut h = FNV0;
+  for a in 0x8000u32..0x10000 { if !(0xff00..0xff80).contains(&a) { h = fnv(h, memory_read_byte(p, a as u16)); } }
+  for b in core.memory.cart_ram.iter() { h = fnv(h, *b); }
+  h
+}
+
+fn fb_digest(core: &Core) -> u64 {
+  let mut h = FNV0;
+  for b in core.get_screen_buffer().iter() { h = fnv(h, *b); }
+  h
+}
+
+pub fn run_one(seed: u64, steps: usize, update: bool, w: &mut dyn Write) {
+  let mut core = load(seed);
+  let cap = Capture::start();
+  let mut s: Vec<String> = Vec::with_capacity(steps);
+  let mut rams: Vec<String> = Vec::new();
+  for k in 0..steps {
+    if update { core.update(); } else if core.run_state == RunState::Run { core.run_code_block(); } else { core.update(); }
+    let p = &mut core.memory as *mut MemoryAreas;
+    let r = &core.registers;
+    let (af, bc, de, hl, sp, ip) = (r.af, r.bc, r.de, r.hl, r.sp, r.ip);
+    let t = core.memory.io.timer.verif_state();
+    let dma = core.memory.oam_dma.map(|d| d.verif_state().1 as u32).unwrap_or(160);
+    let mut dg = FNV0;
+    for v in [bc, de, hl, core.memory.io.interrupt_flag.as_u8() as u32, memory_read_byte(p, 0xffff) as u32, t.1 as u32,
+              memory_read_byte(p, 0xff44) as u32, memory_read_byte(p, 0xff41) as u32, dma,
+              core.memory.cart_state.get_rom_bank() as u32, (core.run_state == RunState::Run) as u32,
+              match core.interrupts_enabled { crate::emulator::InterruptState::Enabled => 0, crate::emulator::InterruptState::Disabled => 1, _ => 2 }] {
+      for i in 0..4 { dg = fnv(dg, (v >> (8 * i)) as u8); }
+    }
+    s.push(format!("{},{},{},{},{}", ip, af, sp, t.0, dg));
+    if k % 64 == 63 { rams.push(ram_digest(&mut core).to_string()); }
+  }
+  rams.push(ram_digest(&mut core).to_string());
+  let fb = fb_digest(&core);
+  let ser = cap.finish();
+  writeln!(w, "c04 seed={} steps={} mode={} | s={} ram={} fb={} ser={}", seed, steps, if update { "update" } else { "block" },
+    s.join(";"), rams.join(";"), fb, hex(&ser)).unwrap();
+}
+
+pub fn run(_sub: &str, opts: &Opts, w: &mut dyn Write) {
+  let (shard, nshards) = opts.shard();
+  let n = if opts.thorough { 4000 } else { 120 };
+  let steps = if opts.thorough { 6000 } else { 2500 };
+  let mut rng = Rng::new(opts.seed ^ 0xc04c04);
+  for idx in 0..n {
+    let seed = rng.next();
+    if idx % nshards != shard { continue; }
+    run_one(seed, steps, false, w);
+  }
 }
